@@ -437,6 +437,53 @@ example : runChunks 3 [] false [[97], [98, 10, 1, 2, 3], [4, 5, 6, 7, 10, 9, 9, 
      ([4, 5, 6, 7, 10, 9, 9, 10], [.msg [1, 2, 3, 4, 5, 6, 7], .msg [9, 9]])] := by
   simp [runChunks, procPart, splitNL, NL, fits]
 
+/-! ## Outside the property: a reader cancelled while it waits
+
+The text quantifies over chunkings, limits and interleavings of arrival with the reader's calls;
+it does not speak about a `receive_message()` call that is *cancelled* while waiting.  `parts`
+is local to the call, so the bytes it had buffered are forgotten and the next call returns only
+the rest of that segment.  Recorded as an assumption (props/C06.json); the three statements
+below document the behaviour, they are not part of the property. -/
+
+/-- without cancellation `runEv` is `run` -/
+theorem cancel_free (max : Nat) : ∀ (chunks : List Bytes) (acc : Bytes) (sync : Bool),
+    runEv max acc sync (chunks.map Ev.chunk) = run max acc sync chunks
+  | [], _, _ => by simp [runEv, run]
+  | c :: cs, acc, sync => by
+    simp only [List.map_cons, runEv, run, cancel_free max cs]
+
+/-- the effect of a cancellation is exactly: the bytes buffered by the cancelled call are
+    forgotten, the `synchronizing` flag is kept -/
+theorem cancel_forgets_buffer (max : Nat) : ∀ (cs : List Bytes) (acc : Bytes) (sync : Bool)
+    (es : List Ev),
+    runEv max acc sync (cs.map Ev.chunk ++ Ev.cancel :: es) =
+      run max acc sync cs ++ runEv max [] (stateAfter max acc sync cs).2 es
+  | [], _, _, _ => by simp [runEv, run, stateAfter]
+  | c :: cs, acc, sync, es => by
+    simp only [List.map_cons, List.cons_append, runEv, run, stateAfter,
+      cancel_forgets_buffer max cs, List.append_assoc]
+
+/-- the full-strength statement with cancellation allowed ... -/
+def delivered_is_segment_cancel_full : Prop :=
+  ∀ (max : Nat) (cs : List Bytes) (es : List Bytes) (m : Bytes),
+    Out.msg m ∈ runEv max [] false (cs.map Ev.chunk ++ Ev.cancel :: es.map Ev.chunk) →
+    m ∈ (segments (cs ++ es).flatten).1
+
+/-- ... fails: `ab` buffered, call cancelled, `c\n` arrives: `c` is delivered, the segment was
+    `abc` -/
+theorem cancel_truncates :
+    runEv 0 [] false [.chunk [97, 98], .cancel, .chunk [99, 10]] = [.msg [99]] ∧
+    ¬ delivered_is_segment_cancel_full := by
+  have w : runEv 0 [] false [.chunk [97, 98], .cancel, .chunk [99, 10]] = [.msg [99]] := by
+    simp [runEv, procPart, splitNL, NL, fits]
+  refine ⟨w, ?_⟩
+  intro h
+  have := h 0 [[97, 98]] [[99, 10]] [99] (by
+    simp only [List.map_cons, List.map_nil, List.cons_append, List.nil_append]
+    rw [w]; simp)
+  revert this
+  decide
+
 /-! ## Facts: what the real `NewlineFramer` did on small grids (regenerated from /repo on every
     run by `tools/facts/c06.py`, which only *runs* the public API), reproduced by the model -/
 
